@@ -145,6 +145,13 @@ func ObserveDict(seg segment.Segment, f string) ([]Term, error) {
 			return nil, fmt.Errorf("postings %q: %w", t.Term, err)
 		}
 	}
+	// a well-behaved caller closes what it opened; nothing it closes may be shared with later callers
+	if err := it.Close(); err != nil {
+		return nil, fmt.Errorf("dictionary iterator Close: %w", err)
+	}
+	if err := dict.Close(); err != nil {
+		return nil, fmt.Errorf("dictionary Close: %w", err)
+	}
 	return out, nil
 }
 
@@ -226,6 +233,9 @@ func WalkAll(pl segment.PostingsList) ([]Posting, error) {
 			return nil, err
 		}
 		if p == nil {
+			if err := it.Close(); err != nil {
+				return nil, fmt.Errorf("postings iterator Close: %w", err)
+			}
 			return out, nil
 		}
 		out = append(out, CopyPosting(p))
